@@ -136,9 +136,9 @@ def process_level(ctx):
     if not c09_eproc.build_server(ctx):
         return
     if ctx.tier == "quick":
-        jobs = [(ctx.seed, "basic"), (ctx.seed, "livegap"), (ctx.seed, "bigvalue"), (ctx.seed, "leaderrestart")]
+        jobs = [(ctx.seed, "basic"), (ctx.seed, "livegap"), (ctx.seed, "bigvalue"), (ctx.seed, "leaderrestart"), (ctx.seed, "rotated")]
     else:
-        jobs = [(ctx.seed + i, k) for i in range(2) for k in ("cuts", "bigvalue", "basic", "livegap", "leaderrestart", "emptydir", "filecut", "filecut0", "filekill", "expiredrecord")]
+        jobs = [(ctx.seed + i, k) for i in range(2) for k in ("cuts", "bigvalue", "basic", "livegap", "leaderrestart", "rotated", "emptydir", "filecut", "filecut0", "filekill", "expiredrecord")]
     runs = c09_eproc.run_scenarios(ctx, jobs)
     ep = ctx.cov.setdefault("eproc", {"scenarios": [], "state_comparisons": 0, "handshakes_seen": {}, "handshakes_vs_model": 0,
                                       "leader_ops": 0, "op_kinds": {}})
